@@ -205,7 +205,10 @@ pub fn odd_names_distinct(g: &mut G, n: usize, excluded: &mut u64) -> Vec<String
         let s = if g.chance(1, 2) { odd_name(g) } else { benign_prop(g) };
         let a = sanitize_like(&s, false);
         let b = sanitize_like(&s, true);
-        if seen_s.contains(&a) || seen_p.contains(&b) {
+        // a name without any alphanumeric character contributes nothing to a
+        // derived type name (Parent + "" = Parent): same collision family
+        let bare = heck_pascal(&s.replace('\'', "").replace(|c| !unicode_ident::is_xid_continue(c), "-"));
+        if bare.is_empty() || seen_s.contains(&a) || seen_p.contains(&b) {
             *excluded += 1;
             continue;
         }
